@@ -96,6 +96,9 @@ type Upstream struct {
 	connState *connStatus
 	state     *streamState
 
+	// connOutages is connState.Outages() of the wire connection the stream is bound to
+	connOutages uint64
+
 	upstreamChunkResultChs map[uint32]chan *message.UpstreamChunkResult
 	receivedAck            *sync.Cond
 }
@@ -346,7 +349,7 @@ func (u *Upstream) run(isResume bool) error {
 	}
 	eg.Go(func() error {
 		u.connState.cond.L.Lock()
-		for !u.connState.IsWithoutLock(connStatusReconnecting) {
+		for !u.connState.DisconnectedSinceWithoutLock(u.connOutages) {
 			select {
 			case <-ctx.Done():
 				u.connState.cond.L.Unlock()
